@@ -365,3 +365,10 @@ def x2(cx: Cx, ob: Ob) -> None:
     from ..rules import state_closure
 
     state_closure(cx, ob)
+
+
+@obligation("C16-D5", "text files AGREE: _file_helper re-opens the file for writing with the same encoding / errors arguments it was read with", floor=2)
+def d5(cx: Cx, ob: Ob) -> None:
+    from ..rules import open_args_agreement
+
+    open_args_agreement(cx, ob, [f"{CONV}._file_helper"], [f"{CONV}._file_helper"], "_file_helper")
